@@ -403,3 +403,51 @@ func branchConds(e Event) []ast.Expr {
 	}
 	return out
 }
+
+// PlaceID identifies the storage an lvalue expression denotes, coarsely: the variable for an
+// identifier, the struct field (whatever the base) for a field selection. Two spellings of one piece
+// of state — a local `limiter`, or `t.limiter` / `tracker.limiter` after the state moved into a
+// struct — get one identity each.
+func PlaceID(info *types.Info, e ast.Expr) types.Object {
+	e = ast.Unparen(e)
+	for {
+		if u, ok := e.(*ast.UnaryExpr); ok && u.Op == token.AND {
+			e = ast.Unparen(u.X)
+			continue
+		}
+		if st, ok := e.(*ast.StarExpr); ok {
+			e = ast.Unparen(st.X)
+			continue
+		}
+		break
+	}
+	switch x := e.(type) {
+	case *ast.Ident:
+		return info.ObjectOf(x)
+	case *ast.SelectorExpr:
+		if s := info.Selections[x]; s != nil && s.Kind() == types.FieldVal {
+			return s.Obj()
+		}
+		return info.Uses[x.Sel]
+	}
+	return nil
+}
+
+// recvPlace: the place of the receiver of a method call.
+func recvPlace(info *types.Info, call *ast.CallExpr) types.Object {
+	if sel, ok := ast.Unparen(call.Fun).(*ast.SelectorExpr); ok {
+		return PlaceID(info, sel.X)
+	}
+	return nil
+}
+
+// privateHelpers: the declared functions that are private helpers of fn (CallGraph.PrivateTo), sorted by key.
+func (p *Prog) privateHelpers(fn *Func) []*Func {
+	var out []*Func
+	for _, h := range p.sortedFuncs() {
+		if h != fn && h.Pkg == fn.Pkg && h.Decl.Body != nil && p.CallGraph().PrivateTo(h.Key, fn.Key) {
+			out = append(out, h)
+		}
+	}
+	return out
+}
